@@ -360,6 +360,26 @@ pub fn minimise(sc: &dyn Scenario, f: &FoundViolation) -> (Value, Tapes, Violati
     (plan, tp, v, fp, json!({"candidates": cands, "kept": kept, "wall_s": t0.elapsed().as_secs_f64()}))
 }
 
+/// Run a command with a wall-clock limit; None on timeout.
+fn output_with_timeout(mut cmd: std::process::Command, secs: u64) -> Option<std::process::Output> {
+    let mut child = cmd.stdout(std::process::Stdio::piped()).stderr(std::process::Stdio::null()).spawn().ok()?;
+    let t0 = Instant::now();
+    loop {
+        match child.try_wait() {
+            Ok(Some(_)) => return child.wait_with_output().ok(),
+            Ok(None) => {
+                if t0.elapsed().as_secs() > secs {
+                    let _ = child.kill();
+                    let _ = child.wait();
+                    return None;
+                }
+                std::thread::sleep(std::time::Duration::from_millis(5));
+            }
+            Err(_) => return None,
+        }
+    }
+}
+
 fn switches(s: &[u16]) -> usize {
     s.windows(2).filter(|w| w[0] != w[1]).count()
 }
@@ -448,6 +468,33 @@ pub fn check_main(sc: &'static dyn Scenario, o: &CheckOpts) -> i32 {
             .expect("spawn worker");
         children.push((child, prefix, start, count));
     }
+    // watchdog: real time is used only to turn a hung worker into a harness error
+    let limit_s: u64 = std::env::var("VERIF_TIMEOUT_S").ok().and_then(|s| s.parse().ok()).unwrap_or(match o.tier {
+        Tier::Quick => 900,
+        Tier::Thorough => 7200,
+    });
+    let pids: Vec<u32> = children.iter().map(|c| c.0.id()).collect();
+    let done = std::sync::Arc::new(std::sync::atomic::AtomicBool::new(false));
+    let timed_out = std::sync::Arc::new(std::sync::atomic::AtomicBool::new(false));
+    {
+        let done = done.clone();
+        let timed_out = timed_out.clone();
+        std::thread::spawn(move || {
+            let t0 = Instant::now();
+            while !done.load(std::sync::atomic::Ordering::SeqCst) {
+                if t0.elapsed().as_secs() > limit_s {
+                    timed_out.store(true, std::sync::atomic::Ordering::SeqCst);
+                    for p in &pids {
+                        unsafe {
+                            libc::kill(*p as i32, libc::SIGKILL);
+                        }
+                    }
+                    return;
+                }
+                std::thread::sleep(std::time::Duration::from_millis(200));
+            }
+        });
+    }
     let mut agg = WorkerSummary::default();
     let mut sigs: Vec<u64> = vec![];
     let mut crashed: Vec<(u64, String)> = vec![];
@@ -496,6 +543,11 @@ pub fn check_main(sc: &'static dyn Scenario, o: &CheckOpts) -> i32 {
         agg.violations.extend(s.violations);
         agg.samples.extend(s.samples);
     }
+    done.store(true, std::sync::atomic::Ordering::SeqCst);
+    if timed_out.load(std::sync::atomic::Ordering::SeqCst) {
+        println!("HARNESS-ERROR workers exceeded the wall-clock limit of {} s and were killed (a library call outside the scheduler may be spinning for real)", limit_s);
+        return 2;
+    }
     sigs.sort_unstable();
     sigs.dedup();
     let distinct = sigs.len() as u64;
@@ -519,9 +571,11 @@ pub fn check_main(sc: &'static dyn Scenario, o: &CheckOpts) -> i32 {
         std::fs::create_dir_all(&dir).ok();
         let path = dir.join(format!("{}-crash.json", rs));
         std::fs::write(&path, serde_json::to_string_pretty(&rf).unwrap()).ok();
-        let st = std::process::Command::new(&exe).args(["replay", path.to_str().unwrap()]).stdout(std::process::Stdio::null()).status();
+        let mut cmd = std::process::Command::new(&exe);
+        cmd.args(["replay", path.to_str().unwrap()]);
+        let st = output_with_timeout(cmd, 60).map(|o| o.status);
         match st {
-            Ok(s) if s.code().is_none() || s.code().map(|c| c > 2).unwrap_or(false) => {
+            Some(s) if s.code().is_none() || s.code().map(|c| c > 2).unwrap_or(false) => {
                 println!("VIOLATION property={} replay={}", id, path.display());
                 reported.push(json!({"class": v.class, "replay": path.display().to_string()}));
                 exit = 1;
@@ -566,12 +620,16 @@ pub fn check_main(sc: &'static dyn Scenario, o: &CheckOpts) -> i32 {
         let path = dir.join(format!("{}-{}.json", f.run_seed, clause));
         std::fs::write(&path, serde_json::to_string_pretty(&rf).unwrap()).ok();
         // confirm in a fresh process
-        let st = std::process::Command::new(&exe).args(["replay", path.to_str().unwrap(), "--quiet"]).output();
-        let ok = matches!(&st, Ok(o) if o.status.code() == Some(1));
+        let mut cmd = std::process::Command::new(&exe);
+        cmd.args(["replay", path.to_str().unwrap(), "--quiet"]);
+        let st = output_with_timeout(cmd, 60);
+        let ok = matches!(&st, Some(o) if o.status.code() == Some(1));
         if !ok {
             // minimised file does not replay: fall back to the original recording
-            let st2 = std::process::Command::new(&exe).args(["replay", opath.to_str().unwrap(), "--quiet"]).output();
-            if matches!(&st2, Ok(o) if o.status.code() == Some(1)) {
+            let mut cmd2 = std::process::Command::new(&exe);
+            cmd2.args(["replay", opath.to_str().unwrap(), "--quiet"]);
+            let st2 = output_with_timeout(cmd2, 60);
+            if matches!(&st2, Some(o) if o.status.code() == Some(1)) {
                 println!("  [{}] {}", f.violation.class, f.violation.msg);
                 println!("VIOLATION property={} replay={}", id, opath.display());
                 reported.push(json!({"class": f.violation.class, "key": key, "replay": opath.display().to_string(), "message": f.violation.msg}));
